@@ -13,7 +13,6 @@ import (
 	"time"
 
 	errorsmod "cosmossdk.io/errors"
-	dbm "github.com/cometbft/cometbft-db"
 	"github.com/cosmos/cosmos-sdk/store/prefix"
 	sdk "github.com/cosmos/cosmos-sdk/types"
 	"github.com/cosmos/cosmos-sdk/types/query"
@@ -502,7 +501,7 @@ func aolHistory(e *aolEnv, rng *rand.Rand, p aolPools, steps int) {
 }
 
 func newAolEnv(s *Stream) *aolEnv {
-	c, err := NewChain(dbm.NewMemDB(), tmpHome(), nil, 0, nil)
+	c, err := NewChain(memDB(), tmpHome(), nil, 0, nil)
 	if err != nil {
 		panic(err)
 	}
